@@ -7,6 +7,16 @@ import os
 ALWAYS = 99
 
 
+def eff_large(node) -> bool:
+    """Is the value a child context returns over the checkpoint size limit?  Its own flag, or - since the interpreter's child
+    returns the list of what its body observed - any nested child whose (oversized) value it contains."""
+    if node.get("k") != "child" or node.get("raises"):
+        return False
+    if node.get("large") or int(node.get("ser_size", 0)) > 256 * 1024:
+        return True
+    return any(eff_large(n) for n in node.get("body", []))
+
+
 def flatten(prog: dict, ext_default=("SUCCEEDED",)):
     """Return list of instruction dicts (1-based indices in fields)."""
     out: list[dict] = []
@@ -58,8 +68,7 @@ def flatten(prog: dict, ext_default=("SUCCEEDED",)):
             base("CBRESULT", path + "#r", parent, cb=ci, caught=bool(node.get("caught")))
             return extra
         elif k == "child":
-            bi = base("CHILD_BEGIN", path, parent, caught=bool(node.get("caught")),
-                      large=bool(node.get("large")) or int(node.get("ser_size", 0)) > 256 * 1024,
+            bi = base("CHILD_BEGIN", path, parent, caught=bool(node.get("caught")), large=eff_large(node),
                       raises=bool(node.get("raises")))
             walk(node.get("body", []), path + "/", bi)
             ei = base("CHILD_END", path + "#e", parent, begin=bi)
